@@ -379,8 +379,8 @@ theorem sortedMapEntries_perm {ε : Type} {kvs kvs' : List (GoVal × GoVal)} (h 
 /-! ## The iteration sites -/
 
 /-- `{% for p in m %}` / `{% tablerow p in m %}`: the items the loop visits -/
-theorem loopItems_map_perm (kt vt : Ty) {kvs kvs' : List (GoVal × GoVal)} (h : kvs'.Perm kvs) (hk : KeysOK kvs) :
-    loopItems (.map kt vt kvs') = loopItems (.map kt vt kvs) := by
+theorem loopItems_map_perm {budget : Int} (kt vt : Ty) {kvs kvs' : List (GoVal × GoVal)} (h : kvs'.Perm kvs) (hk : KeysOK kvs) :
+    loopItems budget (.map kt vt kvs') = loopItems budget (.map kt vt kvs) := by
   simp only [loopItems, sortedMapEntries_perm h hk]
 
 /-- `values.Convert(m, []any)`: the array an array filter receives -/
@@ -465,7 +465,7 @@ example (h1 : keyLess (.flt .f64 1) (.int .int 1) = true) (h2 : keyLess (.int .i
 
 /-- the five entries are put in the same order from both lists -/
 example : sortedEntries exB = sortedEntries exA := sortedEntries_perm exB_perm_exA exA_keysOK
-example : loopItems (.map .any .any exB) = loopItems (.map .any .any exA) := loopItems_map_perm _ _ exB_perm_exA exA_keysOK
+example (budget : Int) : loopItems budget (.map .any .any exB) = loopItems budget (.map .any .any exA) := loopItems_map_perm _ _ exB_perm_exA exA_keysOK
 example : convert (.map .any .any exB) .anys = convert (.map .any .any exA) .anys := convert_map_perm _ _ exB_perm_exA exA_keysOK
 example : stdPrims.applyFilter (ArrF.bn "first") (.map .any .any exB) [] = stdPrims.applyFilter (ArrF.bn "first") (.map .any .any exA) [] :=
   first_map_perm _ _ exB_perm_exA exA_keysOK
